@@ -883,8 +883,8 @@ class XPathToken(Token[ta.XPathTokenType]):
         elif isinstance(obj, Decimal):
             value = format(obj, 'f')
             if '.' in value:
-                return value.rstrip('0').rstrip('.')
-            return value
+                value = value.rstrip('0').rstrip('.')
+            return '0' if value == '-0' else value
 
         elif isinstance(obj, float):
             if math.isnan(obj):
